@@ -208,3 +208,110 @@ def _c13_reach(p0: int, p1: int, p2: int, p3: int, p4: int, fail: int, mode: int
     perm = [p0, p1, p2, p3, p4][:N]
     out, _ = _run(perm, fail, mode, own, max_workers)
     return not (out == 'ok' and mode in (1, 2) and perm != sorted(perm))
+
+
+# ---- histories on real files, no stubs: "each equal to the single-file result" whatever was computed (or failed) before -----------
+
+import gzip as _gzip
+import random as _random
+from concurrent.futures import ThreadPoolExecutor as _RealThreads
+from specs import kmers_spec as _S
+from xh.taxo import fork_int, NoTracing
+
+_HDIR = os.path.join(os.path.dirname(os.path.dirname(os.path.abspath(__file__))), 'scratch', f'c13_hist_{os.getpid()}')
+
+
+def _mk_history_files():
+    import shutil, atexit
+    shutil.rmtree(_HDIR, ignore_errors=True)
+    os.makedirs(_HDIR)
+    atexit.register(lambda: shutil.rmtree(_HDIR, ignore_errors=True))
+    rnd = _random.Random(13)
+    out = {}
+
+    def contigs(n, ln):
+        cs = []
+        for _ in range(n):
+            body = ''.join(rnd.choice('ACGT') for _ in range(ln))
+            cs.append('ATGAC' + body[:30] + 'nn' + body[30:] + 'GTCAT')       # forward and reverse-strand prefix occurrences
+        return cs
+    for name, n in (('good0', 3), ('good1', 2), ('good2', 4)):
+        cs = contigs(n, 400)
+        p = os.path.join(_HDIR, name + '.fasta')
+        with open(p, 'w') as f:
+            for i, c in enumerate(cs):
+                f.write(f'>{name}_{i}\n{c}\n')
+        out[name] = (SequenceFile(p, 'fasta'), _S.py_signature(11, b'ATGAC', [c.encode() for c in cs]))
+    # a file that fails part-way: a gzip stream cut off after most of its (poorly compressible, long) content was readable
+    cs = contigs(60, 1500)
+    raw = ''.join(f'>bad_{i}\n{c}\n' for i, c in enumerate(cs)).encode()
+    gz = _gzip.compress(raw)
+    p = os.path.join(_HDIR, 'bad.fasta.gz')
+    with open(p, 'wb') as f:
+        f.write(gz[:int(len(gz) * 0.8)])
+    out['bad'] = (SequenceFile(p, 'fasta', 'gzip'), None)
+    out['missing'] = (SequenceFile(os.path.join(_HDIR, 'missing.fasta'), 'fasta'), None)
+    return out
+
+
+HFILES = _mk_history_files()
+BATCHES = [['good0', 'good1'], ['bad'], ['good1', 'bad', 'good0'], ['good2'], ['good2', 'good0', 'good1'], ['missing', 'good1'], []]
+MODES = ['sequential', 'threads (own pool)', 'caller-supplied thread pool']
+
+
+def _history_concrete(mode, batches):
+    pool = _RealThreads(max_workers=2) if mode == 2 else None
+    try:
+        for step, b in enumerate(batches):
+            names = BATCHES[b]
+            files = [HFILES[n][0] for n in names]
+            must_fail = any(HFILES[n][1] is None for n in names)
+            kw = dict(progress=None, concurrency=None)
+            if mode == 1:
+                kw.update(concurrency='threads', max_workers=2)
+            elif mode == 2:
+                kw.update(executor=pool)
+            try:
+                res = calc.calc_file_signatures(KSPEC, files, **kw)
+            except Exception as e:   # noqa
+                if must_fail:
+                    continue
+                return False, f'step {step}: batch {names} raised {type(e).__name__}: {e}'
+            if must_fail:
+                return False, f'step {step}: batch {names} returned although one of its files cannot be read'
+            if len(res) != len(names):
+                return False, f'step {step}: batch {names} returned {len(res)} signatures'
+            for i, n in enumerate(names):
+                got = [int(x) for x in res[i]]
+                if got != HFILES[n][1]:
+                    return False, (f'step {step}: signature {i} of batch {names} ({n}) has {len(got)} k-mers, the file alone has {len(HFILES[n][1])} '
+                                   f'({len(set(got) - set(HFILES[n][1]))} extra, {len(set(HFILES[n][1]) - set(got))} missing)')
+    finally:
+        if pool is not None:
+            pool.shutdown()
+    return True, None
+
+
+def _history_run(mode, b0, b1, b2):
+    a = (fork_int(mode, 0, 2), [fork_int(b, 0, len(BATCHES) - 1) for b in (b0, b1, b2)])
+    with NoTracing():
+        r = _history_concrete(*a)
+        if not r[0] and os.environ.get('XH_DEBUG'):
+            with open(os.environ['XH_DEBUG'], 'a') as f:
+                f.write(repr((a, r)) + '\n')
+        return r
+
+
+def _c13_history(mode: int, b0: int, b1: int, b2: int) -> bool:
+    """
+    Three batches one after the other in the same process (real files, real parser, real thread pools): every returned signature
+    equals the single-file result, every batch containing an unreadable file fails - whatever ran or failed before.
+    pre: 0 <= mode <= 2 and all(0 <= b < len(BATCHES) for b in (b0, b1, b2))
+    pre: ('hmode' not in P or mode == P['hmode']) and ('b0' not in P or b0 == P['b0'])
+    post: _
+    """
+    return _history_run(mode, b0, b1, b2)[0]
+
+
+def explain_c13_history(mode, b0, b1, b2):
+    return {'mode': MODES[mode], 'batches': [BATCHES[b] for b in (b0, b1, b2)], 'why': _history_run(mode, b0, b1, b2)[1]}
